@@ -369,3 +369,91 @@ pub fn run(thorough: bool) -> i32 {
     update_config_grid(&mut r);
     r.finish()
 }
+
+/// C16 part for the treasury: every entry point with hostile inputs must return a result or a typed error
+pub fn panic_battery(r: &mut Runner) {
+    use cosmwasm_std::Deps;
+    let trader = p20("trader");
+    let h = hops(&["a", "b"], true);
+    let allow_sets: Vec<Vec<Vec<SwapRoute>>> = vec![vec![], vec![vec![]], vec![vec![h[0].clone()]], vec![vec![h[0].clone(), h[1].clone()], vec![]], vec![vec![h[2].clone()], vec![h[2].clone()]]];
+    let cands = routes_upto(&h[..4], 2);
+    let coins: Vec<(String, u128)> = vec![("a".into(), 0), ("a".into(), 1), ("".into(), 5), ("b".into(), u128::MAX), ("é".into(), 1)];
+    let mut n = 0u64;
+    let mut viols: V = vec![];
+    let mut extra: V = vec![];
+    let mut panic = |n: &mut u64, what: String, r: Result<Response, String>| {
+        *n += 1;
+        if r.as_ref().err().map(|e| e == "PANIC").unwrap_or(false) {
+            viols.push((viol("C16", "panic.treasury", format!("treasury {what} panicked")), json!({"call": what})));
+        }
+    };
+    for allow in &allow_sets {
+        let kv = treasury_kv(&p20("adm"), &trader, allow.clone());
+        for route in &cands {
+            for c in &coins {
+                for sender in [&trader, &p20("x")] {
+                    for lim in [0u128, u128::MAX] {
+                        let coin = Coin { denom: c.0.clone(), amount: Uint128::new(c.1) };
+                        let mut k1 = kv.clone();
+                        panic(&mut n, format!("SwapExactAmountIn {:?} {:?}", route, c), texec(&mut k1, sender, ExecuteMsg::SwapExactAmountIn { routes: route.clone(), token_in: coin.clone(), token_out_min_amount: lim }));
+                        let mut k2 = kv.clone();
+                        panic(&mut n, format!("SwapExactAmountOut {:?} {:?}", route, c), texec(&mut k2, sender, ExecuteMsg::SwapExactAmountOut { routes: route.clone(), token_out: coin, token_in_max_amount: lim }));
+                    }
+                }
+            }
+        }
+        for sender in [p20("adm"), trader.clone(), p20("x"), tre_addr()] {
+            for recv in ["", "garbage", "osmo1", &p20("r"), &bech::addr("celestia", "r", 20), &p32("r")] {
+                for ch in [None, Some(String::new()), Some("channel-0".to_string())] {
+                    let mut k = kv.clone();
+                    panic(&mut n, format!("SpendFunds to {recv:?} via {ch:?}"), texec(&mut k, &sender, ExecuteMsg::SpendFunds { amount: Coin { denom: "a".into(), amount: Uint128::new(u128::MAX) }, receiver: recv.to_string(), channel_id: ch }));
+                }
+            }
+            for t in [None, Some(String::new()), Some("garbage".to_string()), Some(p20("t2"))] {
+                let mut k = kv.clone();
+                panic(&mut n, format!("UpdateConfig trader {t:?}"), texec(&mut k, &sender, ExecuteMsg::UpdateConfig { trader: t, allowed_swap_routes: Some(vec![vec![], vec![h[0].clone()]]) }));
+            }
+            for o in ["", "garbage", &p20("n")] {
+                let mut k = kv.clone();
+                panic(&mut n, format!("TransferOwnership {o:?}"), texec(&mut k, &sender, ExecuteMsg::TransferOwnership { new_owner: o.to_string() }));
+            }
+            let mut k = kv.clone();
+            panic(&mut n, "AcceptOwnership".into(), texec(&mut k, &sender, ExecuteMsg::AcceptOwnership {}));
+            let mut k = kv.clone();
+            panic(&mut n, "RevokeOwnershipTransfer".into(), texec(&mut k, &sender, ExecuteMsg::RevokeOwnershipTransfer {}));
+        }
+        // query and migrate, also on an empty store
+        for store in [kv.clone(), Kv::default()] {
+            let api = SimApi { prefix: PROTO_PREFIX };
+            let q = NoQuerier;
+            let deps = Deps { storage: &store, api: &api, querier: QuerierWrapper::new(&q) };
+            n += 1;
+            if guarded(|| treasury::contract::query(deps, env(), treasury::msg::QueryMsg::Config {})).is_err() {
+                extra.push((viol("C16", "panic.treasury.query", "treasury Config query panicked".into()), json!({"store_empty": store.m.is_empty()})));
+            }
+            let mut s2 = store.clone();
+            let deps = DepsMut { storage: &mut s2, api: &api, querier: QuerierWrapper::new(&q) };
+            n += 1;
+            if guarded(|| treasury::contract::migrate(deps, env(), treasury::msg::MigrateMsg {})).is_err() {
+                extra.push((viol("C16", "panic.treasury.migrate", "treasury migrate panicked".into()), json!({"store_empty": store.m.is_empty()})));
+            }
+        }
+    }
+    // instantiate with hostile arguments
+    for admin in [None, Some(String::new()), Some("garbage".to_string()), Some(p20("a"))] {
+        for tr in [None, Some("garbage".to_string()), Some(p32("t"))] {
+            let mut kv = Kv::default();
+            let api = SimApi { prefix: PROTO_PREFIX };
+            let q = NoQuerier;
+            let info = MessageInfo { sender: Addr::unchecked(p20("adm")), funds: vec![] };
+            let deps = DepsMut { storage: &mut kv, api: &api, querier: QuerierWrapper::new(&q) };
+            let msg = treasury::msg::InstantiateMsg { admin: admin.clone(), trader: tr.clone(), allowed_swap_routes: vec![vec![], vec![h[0].clone()]] };
+            n += 1;
+            if guarded(|| treasury::contract::instantiate(deps, env(), info, msg)).is_err() {
+                extra.push((viol("C16", "panic.treasury.instantiate", format!("treasury instantiate({admin:?},{tr:?}) panicked")), json!({"admin": admin, "trader": tr})));
+            }
+        }
+    }
+    viols.extend(extra);
+    r.grid("c16-treasury-hostile-battery", n, 2, n, 0, vec![json!({"call": "SwapExactAmountOut with empty route", "outcome": "typed error"})], viols);
+}
